@@ -257,6 +257,68 @@ def run(pid, tier, seed):
         if cur:
             batches.append(cur)
 
+        # every supported kind in one merge: text, accounting records, event log (cut by -b), journal -- with text
+        # messages placed exactly on record / entry instants so that the tie rule decides across kinds.  Ground truth:
+        # generator (text, records), evtx_dump, journalctl; observed: the Print events (source, instant) in order.
+        mixed_runs = 0
+        if True:
+            import shutil, subprocess, json as _json
+            from . import c08, c10, c09
+            md = os.path.join(sc, "mixed")
+            os.makedirs(md)
+            ev_src = os.path.join(common.REPO, c10.EVTX)
+            shutil.copyfile(ev_src, os.path.join(md, "k.evtx"))
+            common.build_harness(["evtx_dump"])
+            ev = [x for x in c10.dump(ev_src)]
+            cut = (ev[0]["secs"], 575_000_000)
+            ev_sel = sorted([x for x in ev if (x["secs"], x["nanos"]) <= cut], key=lambda x: ((x["secs"], x["nanos"]), x["idx"]))
+            ev_inst = [(x["secs"], x["nanos"]) for x in ev_sel]
+            base_s = ev[0]["secs"]
+            # text messages: some exactly on event-record instants (microsecond precision), some between
+            t_inst = sorted(set([ev_inst[0], ev_inst[len(ev_inst) // 2], ev_inst[-1], (base_s, 559_000_000), (base_s, 560_500_000)]))
+            def render(letter, insts):
+                return b"".join((gen.fmt_ts(s_, n_, 0, 6) + " src=%s idx=%d\n" % (letter, i)).encode() for i, (s_, n_) in enumerate(insts))
+            with open(os.path.join(md, "a.log"), "wb") as f:
+                f.write(render("A", t_inst))
+            with open(os.path.join(md, "z.log"), "wb") as f:
+                f.write(render("Z", t_inst))
+            u_inst = [(base_s, 559_000_000), ev_inst[0], ev_inst[0], ev_inst[-1]]
+            with open(os.path.join(md, "wtmp"), "wb") as f:
+                f.write(b"".join(gen.utmp_record(7, 1000 + i, b"pts/%d" % i, b"t%d" % i, b"u%d" % i, b"h%d" % i, s_, n_ // 1000) for i, (s_, n_) in enumerate(u_inst)))
+            u_inst = [(s_, (n_ // 1000) * 1000) for s_, n_ in u_inst]
+            with open(os.path.join(md, "u.journal"), "wb") as f:
+                subprocess.run(["gzip", "-dc", os.path.join(common.REPO, "logs/programs/journal/Ubuntu22-user-1000x3.journal.gz")], stdout=f, check=True)
+            jt = [int(_json.loads(l)["__REALTIME_TIMESTAMP"]) for l in c09.jctl(os.path.join(md, "u.journal"), "-o", "json", "--utc").decode().splitlines()]
+            j_inst = [(t // 10**6, (t % 10**6) * 1000) for t in jt]
+            with open(os.path.join(md, "j.log"), "wb") as f:
+                f.write(render("J", sorted(set([j_inst[0], j_inst[-1], (j_inst[0][0] + 5, 0)]))))
+            jl_inst = sorted(set([j_inst[0], j_inst[-1], (j_inst[0][0] + 5, 0)]))
+            msets = [
+                (["a.log", "k.evtx", "wtmp", "z.log"], [t_inst, ev_inst, sorted(u_inst), t_inst], ["-b", gen.fmt_ts(cut[0], cut[1], 0, 6)]),
+                (["k.evtx", "z.log", "a.log", "wtmp"], [ev_inst, t_inst, t_inst, sorted(u_inst)], ["-b", gen.fmt_ts(cut[0], cut[1], 0, 6)]),
+                (["j.log", "u.journal"], [jl_inst, j_inst], []),
+                (["u.journal", "j.log"], [j_inst, jl_inst], []),
+            ]
+            for files_, truth, win in msets:
+                exp = sorted([(inst, w, i) for w, lst in enumerate(truth) for i, inst in enumerate(lst)], key=lambda x: (x[0], x[1], x[2]))
+                exp_seq = [(w, inst) for inst, w, i in exp]
+                scheds = [{}] + [{"S4_VERIF_SEED": str(rng.randrange(1 << 30)), "S4_VERIF_DELAY_US": "500"} for _ in range(2 if tier == "quick" else 8)]
+                scheds += [{"S4_VERIF_HOLD": "w%d:SendStart:%d:60" % (w, k)} for w in range(len(files_)) for k in (0, 1)]
+                for env in scheds:
+                    tmpd = os.path.join(md, "tmp")
+                    os.makedirs(tmpd, exist_ok=True)
+                    rr = common.run_s4(["--color", "never"] + win + files_, cwd=md, env=env, trace=True, timeout=60, tmpdir=tmpd)
+                    mixed_runs += 1
+                    rec = {"kind": "mixed", "files": files_, "window": win, "env": env, "rc": rr.rc}
+                    if rr.crashed or rr.rc != 0:
+                        rep.violation("mixed:crash", "rc=%s %r" % (rr.rc, rr.err[-200:]), rec)
+                        continue
+                    got_seq = [(e["w"], (e["ds"], e["dn"])) for e in rr.trace if e["ev"] == "Print"]
+                    if got_seq != exp_seq:
+                        k = next((i for i, (g, e) in enumerate(zip(got_seq, exp_seq)) if g != e), min(len(got_seq), len(exp_seq)))
+                        rec.update({"at": k, "got": got_seq[max(0, k - 2):k + 3], "want": exp_seq[max(0, k - 2):k + 3]})
+                        rep.violation("mixed-kinds-order", "merge of %s: print %d is %s, the stable merge has %s" % (files_, k, got_seq[k] if k < len(got_seq) else None, exp_seq[k] if k < len(exp_seq) else None), rec)
+
         # C06: the reader of standard output goes away early (`s4 ... | head`): the run must still end promptly
         epipe_runs = 0
         if pid == "C06":
@@ -319,7 +381,7 @@ def run(pid, tier, seed):
             "rule": "distinct = (ground-truth instants per source, schedule) pairs; non-trivial = >= 2 sources with at "
                     "least one equal instant inside or across sources",
             "samples": samples, "tlc_configs": details, "tlc_plans_followed": plan_followed, "tlc_plans_run": plan_total,
-            "source_sets": nsets, "closed_pipe_runs": epipe_runs, "exhaustive": False,
+            "source_sets": nsets, "closed_pipe_runs": epipe_runs, "mixed_kind_runs": mixed_runs, "exhaustive": False,
             "checker_cmd": "tlc -config <generated MC cfg> S4Run.tla ; tlc -workers 1 -config <trace cfg> TraceS4Run.tla",
         }
         rep.assumptions = [
